@@ -1043,8 +1043,13 @@ pub fn run_one(root_seed: u64, i: u64, max_plans: usize, st: &mut Stats) -> Opti
         w2.world.argv.insert(pos * 2 + 1, "jnone".into());
         let o2 = run_world(&w2.world, &[]);
         st.spawns += 1;
-        if o2.exit != base.exit || String::from_utf8_lossy(&o2.stdout).replace(&o2.root, "<ROOT>") != String::from_utf8_lossy(&base.stdout).replace(&base.root, "<ROOT>") {
-            return Some(violation(&w2, &[], "P4", "empty-J-dir-changed-output", "adding a -J directory that contains none of the imported names changed the output", i, &o2, false));
+        // judged by the model, not by byte equality with the original world: a spelling such as `../j1/c.libsonnet`
+        // resolves through ANY existing -J directory, so an empty one placed earlier in the search legitimately
+        // changes the path (and std.thisFile) the file is loaded by
+        let root2 = PathBuf::from(&o2.root);
+        let pred2 = predict(&w2, &root2);
+        if let Err((inv, class, msg)) = check_fault_free(&w2, &o2, &pred2) {
+            return Some(violation(&w2, &[], &inv, &format!("extra-empty-J:{class}"), &format!("(after adding a -J directory that holds none of the names) {msg}"), i, &o2, false));
         }
         bump(&mut st.probes, "P4_empty_J_dir_checked");
         if w.jdirs.len() >= 2 {
